@@ -36,7 +36,7 @@ BUILDER_CONFIGS = [
     (1, 2, 0, 1, 1, "1", "1", "quick"),
     (1, 1, 1, 1, 1, "0", "0", "quick"),
     (0, 2, 1, 2, 1, "11", "1", "thorough"),
-    (1, 2, 1, 2, 2, "12", "12", "quick"),
+    (1, 2, 1, 2, 2, "12", "12", "thorough"),
     (2, 2, 0, 1, 2, "0", "01", "quick"),
     (1, 2, 2, 2, 2, "22", "21", "thorough"),
     (2, 2, 2, 2, 2, "11", "11", "thorough"),
@@ -74,7 +74,7 @@ def replay_obl(b0, b1, b2, rot, tier="quick"):
 
 OBLIGATIONS.append(replay_obl(1, 2, 1, 0))
 OBLIGATIONS.append(replay_obl(2, 1, 0, 3))
-OBLIGATIONS.append(replay_obl(0, 2, 2, 6))
+OBLIGATIONS.append(replay_obl(0, 2, 2, 6, tier="thorough"))
 OBLIGATIONS.append(replay_obl(2, 2, 2, 1, tier="thorough"))
 
 META = {
